@@ -795,7 +795,9 @@ func c16BuildReverseProxyOn(run *vfRun, w *vfWorld) []c16RPInst {
 func c16ReverseProxyOn(run *vfRun, w *vfWorld, insts []c16RPInst) {
 	all := c16ClientIPHeaders()
 	type inst = c16RPInst
-	own := []struct{ Class, V string }{{"absent", ""}, {"trusted", "10.1.2.3"}, {"untrusted", "198.51.100.77"}, {"trusted-v6", "2001:db8::7"}, {"garbage", "not-an-ip"}, {"untrusted-then-trusted-list", "198.51.100.77, 10.1.2.3"}}
+	own := []struct{ Class, V string }{{"absent", ""}, {"trusted", "10.1.2.3"}, {"untrusted", "198.51.100.77"}, {"trusted-v6", "2001:db8::7"}, {"garbage", "not-an-ip"}, {"untrusted-then-trusted-list", "198.51.100.77, 10.1.2.3"},
+		// RFC 7239 placeholders and other non-addresses a front proxy may put into the configured header (round 9)
+		{"garbage-unknown", "unknown"}, {"garbage-unknown-upper", "UNKNOWN"}, {"garbage-obfuscated", "_hidden"}, {"garbage-blank", " "}, {"garbage-dash", "-"}}
 	otherVals := []string{"10.1.2.3", "198.51.100.77", "10.9.9.9, 198.51.100.1", "2001:db8::1"}
 	eps := []struct{ Name, Target string }{{"protected", "/app/x"}, {"auth-only", "/oauth2/auth"}}
 	peers := []string{"203.0.113.9:1", "10.5.5.5:2"}
@@ -839,7 +841,7 @@ func c16ReverseProxyOn(run *vfRun, w *vfWorld, insts []c16RPInst) {
 				run.Inconclusive("rp-on: trusted address in the configured header is not exempted")
 			}
 			run.Count("rp_on_base_exempt", 1)
-		case "untrusted", "absent", "garbage":
+		case "untrusted", "absent", "garbage", "garbage-unknown", "garbage-unknown-upper", "garbage-obfuscated", "garbage-blank", "garbage-dash":
 			if base {
 				run.Inconclusive("rp-on: request without trusted address in the configured header is exempted")
 			}
